@@ -8,6 +8,8 @@ import (
 	"pgregory.net/rapid"
 
 	kit "github.com/mimiro-io/datahub/internal/verifkit"
+
+	"github.com/mimiro-io/datahub/internal/server"
 )
 
 var mgmtPool = []string{"a", "b", "c", "d"}
@@ -63,6 +65,39 @@ func (g *gm) mgmtActions(withGC, withRestart bool) map[string]func(*rapid.T) {
 			g.applyRename(Op{K: "rename", Name: rapid.SampledFrom(g.live()).Draw(t, "name"), ID: rapid.SampledFrom(nl).Draw(t, "to"), Via: via(t)})
 		},
 	}
+	acts["setPublicNamespaces"] = func(t *rapid.T) {
+		g.t = t
+		if len(g.live()) == 0 {
+			t.Skip("no dataset")
+		}
+		name := rapid.SampledFrom(g.live()).Draw(t, "ds")
+		all := append([]string{}, kit.PoolNS...)
+		all = append(all, "http://data.mimiro.io/core/dataset/")
+		list := []string{}
+		for _, ns := range all {
+			if rapid.Bool().Draw(t, "in") {
+				list = append(list, ns)
+			}
+		}
+		g.applyPubNS(Op{K: "pubns", Name: name, Scope: list})
+	}
+	// a batch that is rejected as a whole, often followed by the client sending its valid part again
+	acts["rejectedBatch"] = func(t *rapid.T) {
+		g.t = t
+		if len(g.live()) == 0 {
+			t.Skip("no dataset")
+		}
+		op := g.genBatchOp()
+		op.K, op.Via = "badbatch", "store"
+		if len(op.Ents) > 4 {
+			op.Ents = op.Ents[:4]
+		}
+		g.applyBadBatch(op)
+		if rapid.IntRange(0, 2).Draw(t, "resend") > 0 {
+			g.applyBatch(Op{K: "batch", DS: op.DS, Via: rapid.SampledFrom([]string{"store", "parser"}).Draw(t, "via"), Ents: op.Ents})
+			g.cls["rejected-batch-then-resend"] = true
+		}
+	}
 	if withGC {
 		acts["gc"] = func(t *rapid.T) {
 			g.t = t
@@ -109,9 +144,68 @@ func TestVerif_C07(t *testing.T) {
 			kit.JournalDone()
 		}()
 		acts := g.mgmtActions(true, true)
+		acts["pagedQueryAcrossDelete"] = func(t *rapid.T) { g.t = t; g.pagedQueryAcrossDelete() }
 		acts[""] = func(t *rapid.T) { g.t = t; c07Oracle(g) }
 		t.Repeat(acts)
 	})
+}
+
+// pagedQueryAcrossDelete: the first page of an outgoing relation query (limit
+// 1, scope naming the dataset about to go) is read, the dataset is deleted,
+// and the query is continued through the continuation it had returned. No page
+// read after the delete may contain a relation that only the deleted dataset
+// held: what the surviving datasets of the scope say is all that is left.
+func (g *gm) pagedQueryAcrossDelete() {
+	live := g.live()
+	if len(live) == 0 {
+		g.t.Skip("no dataset")
+	}
+	victim := rapid.SampledFrom(live).Draw(g.t, "victim")
+	scope := []string{victim}
+	if len(live) > 1 && rapid.Bool().Draw(g.t, "wider") {
+		scope = append([]string{}, live...)
+	}
+	start := rapid.SampledFrom(g.pool.IDs).Draw(g.t, "start")
+	g.record(Op{K: "pagedQueryAcrossDelete", Name: victim, ID: start, Scope: scope})
+	var cont []*server.RelatedFrom
+	res, err := g.h.Store.GetManyRelatedEntitiesBatch([]string{start}, "*", false, scope, 1, true)
+	if err != nil && !isNoPredicate(err) {
+		g.fail("first page: %v", err)
+	}
+	if err == nil {
+		cont = res.Cont
+	}
+	g.applyDelete(Op{K: "delete", Name: victim, Via: "dsm"})
+	if len(cont) == 0 {
+		return
+	}
+	var rest []string
+	for _, ds := range scope {
+		if ds != victim {
+			rest = append(rest, ds)
+		}
+	}
+	allowed := map[string]bool{}
+	if len(rest) > 0 {
+		allowed = g.m.Outgoing(start, "*", rest)
+	}
+	g.cls["continuation-followed-after-delete"] = true
+	for i := 0; i < 1000 && len(cont) > 0; i++ {
+		res, err := g.h.Store.GetManyRelatedEntitiesAtTime(cont, 1, true)
+		if err != nil {
+			g.fail("continued page after the delete: %v", err)
+		}
+		for _, x := range res.Relations {
+			id := ""
+			if x.RelatedEntity != nil {
+				id = x.RelatedEntity.ID
+			}
+			if k := x.PredicateURI + "|" + id; !allowed[k] {
+				g.fail("DELETED-DATASET-RELATION-SERVED start=%s: a page of a query begun before %s was deleted, read after the delete, contains %s; the surviving datasets of its scope %v hold %s", start, victim, k, rest, kit.SetStr(allowed))
+			}
+		}
+		cont = res.Cont
+	}
 }
 
 func c07Oracle(g *gm) {
